@@ -57,6 +57,11 @@ def strategy_(draw, tier):
         name = "read%d" % r
         if special and r < 2:
             name = ("plumless", "buckeroo")[r]  # two names with the same CRC-32: tables must be keyed by the name itself
+        elif special and r in (2, 3):
+            # ONT-style UUID names; names are compared as strings (case matters, nothing is normalised)
+            name = ("0f8fad5b-d9cb-469f-a165-70867728950e", "0F8FAD5B-D9CB-469F-A165-70867728950E")[r - 2]
+        elif special and r in (4, 5):
+            name = ("Read7", "read7")[r - 4]
         comment = draw(st.sampled_from(["", "", " runid=abc ch=4", " 1:N:0"]))
         qlen = draw(st.integers(60, 400))
         for k in range(draw(st.integers(1, 4))):
@@ -90,6 +95,16 @@ def strategy_(draw, tier):
                 cg = "cg:Z:" + "".join("%d%s" % x for x in mops)
             else:
                 cg = "cg:Z:" + "".join("%d%s" % x for x in ops)
+            if style != "none" and draw(st.integers(0, 4)) == 0:
+                # soft/hard clips, reference skips and padding are CIGAR operations too; they are not among the counted events
+                body = cg[5:]
+                body = draw(st.sampled_from(["", "5S", "3H", "3H5S"])) + body
+                runs_ = re.findall(r"\d+[=XIDM]", body)
+                if len(runs_) >= 2 and draw(st.booleans()):
+                    k_ = draw(st.integers(1, len(runs_) - 1))
+                    head_ = "".join(re.findall(r"^(?:\d+[SH])*", body))
+                    body = head_ + "".join(runs_[:k_]) + draw(st.sampled_from(["500N", "2P", "12N"])) + "".join(runs_[k_:])
+                cg = "cg:Z:" + body + draw(st.sampled_from(["", "7S", "2H"]))
             if style != "none":
                 tags.insert(draw(st.integers(0, len(tags))), cg)
             plen = block + 10
